@@ -122,6 +122,12 @@ def serve(registry, feed, napps, processes, batches):
 
             return super().run(handler, stats, **kwargs)
 
+        def __exit__(self, *exc):     # the engine shutdown, bounded: stuck engine threads must not hang the check
+            import threading
+            thread = threading.Thread(target=super().__exit__, args=exc, daemon=True)
+            thread.start()
+            thread.join(30)
+
     async def one(client, q):
         headers = {}
         if q['ctype']:
